@@ -3,6 +3,7 @@
 From PS Require Import Lib.Base Lib.Struct Generated.Consts Model.SdTypes Model.Config Model.Session Model.Someip Model.SdCodec
   Model.StackTypes Model.Stack Model.StackIO Spec.C08Spec Proofs.C07Proofs Proofs.StackOpsProofs Generated.LogicGen Proofs.GenEquiv
   Proofs.WorldInv Proofs.WorldLog.
+From PS Require Import Model.Skel Proofs.GenSkel.
 
 (* for every interleaving of destinations, the k-th id handed out for a destination depends on k alone *)
 Theorem C08_cycle : forall ds, run_assign sess_init ds = spec_assign [] ds.
@@ -49,6 +50,22 @@ Proof. reflexivity. Qed.
 Theorem C08_model_is_the_translated_source : forall s d, gen_assign_outgoing s d = assign_outgoing s d.
 Proof. exact gen_assign_outgoing_eq. Qed.
 
+(* send_sd is the control flow translated from the source text of sd.py on every run: an empty entry list consumes no
+   session id and sends nothing; otherwise the destination's id is taken first, then the message is built (flags, client id,
+   interface version as written in the source) and sent *)
+Theorem C08_send_sd_is_the_translated_source : forall entries remote w,
+  send_sd entries remote w
+  = fst (fold_left (run_sdact entries remote) (gen_send_sd (match entries with [] => true | _ => false end)) (w, (false, 0))).
+Proof. exact send_sd_is_the_translated_source. Qed.
+Theorem C08_sd_datagram_is_the_translated_source : forall entries flag sid,
+  sd_datagram entries flag sid
+  = (do a <- assign_sd (mkSd entries [] flag gen_sd_flag_unicast 0);
+     do p <- build_sd a;
+     build_msg (mkMsg SD_SERVICE SD_METHOD gen_sd_client_id sid gen_sd_interface_version MT_NOTIFICATION 1 RC_E_OK p)).
+Proof. exact sd_datagram_is_the_translated_source. Qed.
+
+Print Assumptions C08_send_sd_is_the_translated_source.
+Print Assumptions C08_sd_datagram_is_the_translated_source.
 Print Assumptions C08_cycle.
 Print Assumptions C08_session_ids_on_the_stack.
 Print Assumptions C08_receiving_leaves_outgoing_ids_alone.
